@@ -61,6 +61,12 @@ func NewStatsProcessor(options *structs.StatsExpr) *statsProcessor {
 	if options != nil {
 		if options.GroupByRequest != nil {
 			processor.processorType = structs.GroupByCmd
+
+			// Set these now and not when the first records arrive: the
+			// parallel copies of a chain share the options and process their
+			// records concurrently.
+			options.GroupByRequest.BucketCount = int(sutils.QUERY_MAX_BUCKETS)
+			options.GroupByRequest.IsBucketKeySeparatedByDelim = true
 		} else if options.MeasureOperations != nil {
 			processor.processorType = structs.SegmentStatsCmd
 		}
@@ -162,8 +168,6 @@ func (p *statsProcessor) processGroupByRequest(inputIQR *iqr.IQR) (*iqr.IQR, err
 	}
 
 	if p.searchResults == nil {
-		p.options.GroupByRequest.BucketCount = int(sutils.QUERY_MAX_BUCKETS)
-		p.options.GroupByRequest.IsBucketKeySeparatedByDelim = true
 		aggs := &structs.QueryAggregators{GroupByRequest: p.options.GroupByRequest}
 		searchResults, err := segresults.InitSearchResults(uint64(numOfRecords), aggs, structs.GroupByCmd, qid)
 		if err != nil {
